@@ -19,6 +19,13 @@ import (
 type MyStr string
 type MyBytes []byte
 type MyInt int16
+type MyByte byte
+type NamedArr struct {
+	A [3]MyByte
+	P *[2]MyByte
+	S []MyByte
+	M map[[1]MyByte]MyByte
+}
 type Inner struct {
 	A int
 	b string
@@ -39,6 +46,19 @@ type ArrHolder struct {
 	A [3]byte
 	M map[[2]byte]int
 }
+type TagInner struct {
+	A int `pickle:"a"`
+	B string
+}
+type EmbPtr struct { // embedded pointer to a struct with tagged fields (nil or set)
+	*TagInner
+	X int
+}
+type EmbVal struct {
+	TagInner
+	Y int `pickle:"y"`
+	Z *EmbPtr `pickle:"z"`
+}
 type PtrChain struct {
 	P ***int
 	N *Inner
@@ -52,7 +72,7 @@ func (g *rgen) leafType() reflect.Type {
 	ts := []any{false, int(0), int8(0), int16(0), int32(0), int64(0), uint(0), uint8(0), uint16(0), uint32(0), uint64(0),
 		uintptr(0), float32(0), float64(0), complex64(0), complex128(0), "", MyStr(""), og.Bytes(""), og.ByteString(""),
 		MyInt(0), []byte(nil), MyBytes(nil), make(chan int), (func())(nil), unsafe.Pointer(nil), og.None{}, og.Class{}, (*big.Int)(nil),
-		og.Tuple(nil), og.Ref{}, og.Call{}, Inner{}, Outer{}, Tagged{}, ArrHolder{}, PtrChain{}, [2]byte{}, [0]byte{}}
+		og.Tuple(nil), og.Ref{}, og.Call{}, Inner{}, Outer{}, Tagged{}, ArrHolder{}, PtrChain{}, [2]byte{}, [0]byte{}, [2]MyByte{}, []MyByte(nil), NamedArr{}, MyByte(0), EmbPtr{}, EmbVal{}, TagInner{}}
 	return reflect.TypeOf(ts[g.rng.Intn(len(ts))])
 }
 
@@ -230,7 +250,9 @@ func (g *rgen) fill(t reflect.Type, depth int) (reflect.Value, string) {
 				bs = make([]byte, n)
 				rng.Read(bs)
 				v = reflect.MakeSlice(t, n, n)
-				reflect.Copy(v, reflect.ValueOf(bs))
+				for i, b := range bs { // element-wise: the element type may be a named byte type
+					v.Index(i).SetUint(uint64(b))
+				}
 			}
 			return v, "barr:" + hexOrDash(string(bs))
 		}
@@ -268,7 +290,9 @@ func (g *rgen) fill(t reflect.Type, depth int) (reflect.Value, string) {
 				kd = "I" + strconv.Itoa(i*300)
 			case reflect.Array:
 				k.Index(0).SetUint(uint64(i))
-				kd = "barr:" + hexOrDash(string([]byte{byte(i), 0}))
+				kb := make([]byte, k.Len())
+				kb[0] = byte(i)
+				kd = "barr:" + hexOrDash(string(kb))
 			default: // any
 				k.Set(reflect.ValueOf(int64(i)))
 				kd = "I" + strconv.Itoa(i)
@@ -306,6 +330,42 @@ func (g *rgen) fill(t reflect.Type, depth int) (reflect.Value, string) {
 		return v, "st( " + strings.Join(append(ds, ")"), " ")
 	}
 	return v, "uns:" + t.Kind().String()
+}
+
+// encrfCase: the same generated value as encrCase(seed, ...), encoded into a Writer whose k-th Write fails.
+func encrfCase(seed int64, proto int, su bool, k int) (out string) {
+	defer func() {
+		if r := recover(); r != nil {
+			out = fmt.Sprintf("HARNESS-PANIC %v", r)
+		}
+	}()
+	g := &rgen{rng: rand.New(rand.NewSource(seed))}
+	depth := 1 + g.rng.Intn(4)
+	t := g.genType(depth)
+	v, _ := g.fill(t, depth)
+	var arg any
+	if v.IsValid() && v.CanInterface() {
+		arg = v.Interface()
+		if g.rng.Intn(6) == 0 {
+			p := reflect.New(v.Type())
+			p.Elem().Set(v)
+			arg = p.Interface()
+		}
+	}
+	w := &chunkWriter{failAt: k}
+	e := og.NewEncoderWithConfig(w, &og.EncoderConfig{Protocol: proto, StrictUnicode: su})
+	err, p := encodeOne(e, arg)
+	if p != "" {
+		return "PANIC:" + strings.ReplaceAll(p, " ", "_")
+	}
+	inj := 0
+	cls := "-"
+	if err == errInjected {
+		inj = 1
+	} else if err != nil {
+		cls = encClass(err)
+	}
+	return fmt.Sprintf("%d %d %s", w.writes, inj, cls)
 }
 
 func encrCase(seed int64, proto int, su bool) (out string) {
